@@ -5,6 +5,7 @@ import (
 	"fmt"
 	stdhtml "html"
 	"regexp"
+	"strings"
 
 	"github.com/tdewolff/parse/v2"
 	"github.com/tdewolff/parse/v2/html"
@@ -354,6 +355,16 @@ func entGen(fn string) func(r *Rng, tier string, emit func(Case)) {
 				emit(bytesCase(fn, m.encode(), []byte(fmt.Sprintf("&#%d;%s", v, suffix))))
 				emit(bytesCase(fn, m.encode(), []byte(fmt.Sprintf("&#%03d;", v))))
 				emit(bytesCase(fn, m.encode(), []byte(fmt.Sprintf("&#%d", v))))
+			}
+		}
+		// the look-behind of replaceEntities: runs of 28..38 bytes of [0-9a-zA-Z#] (with and without an ampersand, a
+		// numeric or a named prefix, a stopper) directly in front of a reference whose replacement continues them
+		for k, c := range c17LookBehindCases() {
+			emit(bytesCase(fn, c17Maps[1+len(c)%4].encode(), c))
+			if fn == "c17_wsent" && k%5 == 0 {
+				// the look-behind must not see the stale bytes between the write position and the next text section
+				emit(bytesCase(fn, c17Maps[1+len(c)%4].encode(), append([]byte("&#  \n"), c...)))
+				emit(bytesCase(fn, c17Maps[1+len(c)%4].encode(), append([]byte("a  &  "), c[len(c)/2:]...)))
 			}
 		}
 		for i := 0; i < n; i++ {
@@ -876,9 +887,37 @@ func c17EntOracle(r *Rng, tier string, rep *Report) {
 			check(ms[v%len(ms)], []byte(fmt.Sprintf("&#%d;", v)))
 		}
 	}
-	for i := 0; i < n; i++ {
-		check(ms[r.Intn(len(ms))], genEntString(r, 1+i%10))
+	for i, c := range c17LookBehindCases() {
+		check(ms[i%len(ms)], c)
 	}
+	for i := 0; i < n; i++ {
+		b := genEntString(r, 1+i%10)
+		if i%50 == 0 {
+			// a long numeric / named / plain run in front of the string
+			b = append([]byte(r.PickStr([]string{"&#", "&#x", "&", "", " ", "&#0", "&am"})+strings.Repeat(r.PickStr([]string{"0", "a", "7", "F"}), 25+r.Intn(14))), b...)
+		}
+		check(ms[r.Intn(len(ms))], b)
+	}
+}
+
+// c17LookBehindCases: every run length around MaxEntityLength+2 in front of references whose replacement starts with a
+// letter, a digit, '#' or ';' (looked behind) and with '<' or '&' (not looked behind).
+func c17LookBehindCases() [][]byte {
+	var out [][]byte
+	for n := 26; n <= 38; n++ {
+		for _, head := range []string{"&#", "&#x", "&", "&#0", "", " ", ";", "&;", "a&"} {
+			for _, fill := range []string{"0", "a", "4", "#"} {
+				for _, ref := range []string{"&#59;", "&#65;", "&#x41;;", "&#35;", "&#48;;", "&#60;", "&#38;", "&semi;", "&num;x41;", "&#x3c;"} {
+					run := head + strings.Repeat(fill, n-len(head))
+					out = append(out, []byte(run+ref))
+					if n%4 == 0 {
+						out = append(out, []byte("z "+run+ref+"z"))
+					}
+				}
+			}
+		}
+	}
+	return out
 }
 
 func c17ComposeOracle(r *Rng, tier string, rep *Report) {
@@ -907,6 +946,14 @@ func c17ComposeOracle(r *Rng, tier string, rep *Report) {
 		k = 8
 	}
 	allStrings([]byte{'&', '#', ';', '4', 'a', ' ', '\n'}, k, func(b []byte) { check(&c17Maps[4], b) })
+	for i, c := range c17LookBehindCases() {
+		check(&c17Maps[i%len(c17Maps)], c)
+		if i%3 == 0 {
+			check(&c17Maps[i%len(c17Maps)], append([]byte("&#  \n"), c...))
+			check(&c17Maps[i%len(c17Maps)], append([]byte("a  &  "), c[len(c)/2:]...))
+			check(&c17Maps[i%len(c17Maps)], append(append([]byte("&#x  "), c[len(c)-8:]...), "  &am  &#112;;"...))
+		}
+	}
 	for i := 0; i < n; i++ {
 		m := &c17Maps[r.Intn(len(c17Maps))]
 		b := genEntString(r, 1+i%10)
